@@ -542,20 +542,34 @@ impl Object {
             Type::Int => f.write_str(&self.as_int().to_string())?,
             Type::String => unsafe { f.write_str(self.as_str_unchecked())? },
             Type::Array => {
-                if parents.contains(&self.as_ptr()) {
-                    return f.write_str("[...]");
-                }
+                // Nested arrays are written with an explicit stack of (array, next index) instead of
+                // recursion, so that a very deeply nested array can not exhaust the native stack.
+                let mut open: Vec<(Object, usize)> = vec![(*self, 0)];
                 parents.push(self.as_ptr());
-                let values = unsafe { self.as_vec_unchecked() };
                 f.write_char('[')?;
-                for (i, obj) in values.iter().enumerate() {
-                    if i > 0 {
+                while let Some((array, index)) = open.last().copied() {
+                    let values = unsafe { array.as_vec_unchecked() };
+                    if index == values.len() {
+                        f.write_char(']')?;
+                        open.pop();
+                        parents.pop();
+                        continue;
+                    }
+                    open.last_mut().unwrap().1 += 1;
+                    if index > 0 {
                         f.write_str(", ")?;
                     }
-                    obj.fmt_nested(f, parents)?;
+                    let value = values[index];
+                    if value.tag() != Type::Array {
+                        value.fmt_nested(f, parents)?;
+                    } else if parents.contains(&value.as_ptr()) {
+                        f.write_str("[...]")?;
+                    } else {
+                        f.write_char('[')?;
+                        open.push((value, 0));
+                        parents.push(value.as_ptr());
+                    }
                 }
-                f.write_char(']')?;
-                parents.pop();
             }
             Type::Function => f.write_str("functie")?,
         }
